@@ -20,6 +20,9 @@ func show(args []string) {
 	if args[0] == "contention" {
 		c = gen.Contention(seed, idx, "quick")
 	}
+	if args[0] == "fragmented" {
+		c = gen.Fragmented(seed, idx, "quick")
+	}
 	if n, err := strconv.Atoi(os.Getenv("VERIF_SHOW_CYCLES")); err == nil && n > 0 {
 		c.Cycles = n
 	}
